@@ -365,7 +365,10 @@ def task_atheris(ctx: Ctx, shard: int, runs: int) -> None:
             stats = {}
         execs = int(stats.get("execs", 0))
         if execs == 0:
-            raise RuntimeError(f"atheris campaign did not run: exit {r.returncode}: {(r.stdout + r.stderr)[-600:]}")
+            # the auxiliary campaign could not run here (environment): say so in the evidence; the other tasks decide
+            ctx.label("atheris:did-not-run")
+            ctx.notes[f"atheris-{shard}"] = f"exit {r.returncode}: {(r.stdout + r.stderr)[-400:]}"
+            return
         ctx.bulk(execs, int(stats.get("accepted", 0)) + int(stats.get("created", 0)), label="atheris:exec")
         ctx.sample("atheris", {"shard": shard, "seed": seed, "execs": execs, "accepted": stats.get("accepted"), "created": stats.get("created"), "buckets": {k: v["n"] for k, v in stats.get("buckets", {}).items()}}, True)
         for f in sorted(glob.glob(os.path.join(out, "finding-*.bin")) + glob.glob(os.path.join(out, "crash-*")) + glob.glob(os.path.join(out, "timeout-*")) + glob.glob(os.path.join(out, "oom-*"))):
